@@ -108,7 +108,7 @@ func (e *Env) NewClient(o ClientOpt) (*Client, error) {
 			c.RevSvc = svc.New()
 		}
 		opts = append(opts,
-			jsonrpc.WithClientHandler("R", &svc.RevHandler{Identity: o.RevIdent, S: c.RevSvc}),
+			jsonrpc.WithClientHandler("R", &svc.RevHandler{Identity: o.RevIdent, S: c.RevSvc, Fwd: &c.Client}),
 			jsonrpc.WithClientHandlerAlias("R.AliasIdent", "R.Ident"))
 	}
 	tr := o.Transport
